@@ -11,6 +11,7 @@ and `expect` of the modelled Rust is an operation that can return `.panic`;
 the proofs are where each of them is shown to be guarded.
 -/
 import Rc.Lemmas.Update
+import Rc.Lemmas.IterProto
 
 namespace Rc.Thm.C02
 open Rc Rc.Nlri Rc.Attr Rc.Upd
@@ -873,5 +874,72 @@ theorem returned_path_bounded (m : Msg) (v : Bytes) (h : AsPath.HopPath) :
 example : (match AsPath.hops true ((List.replicate 300 [1, 0]).flatten) with
     | .ok h => some h.length | _ => none) = some 300 := by decide +kernel
 
+/-! ### how an iterator is consumed does not matter
+
+The iterators of the model are `next` functions observed through `collect` (= `for` / `collect()` /
+`next()` until `None`).  Rust code can consume the same iterators through `count`, `last`, `nth`, `skip`,
+`step_by`, `fold`, `by_ref().take(j)` followed by any of these, `peekable` ...; for a type that implements
+`next` only these are the default methods, all functions of the `next()` sequence
+(Rc/Lemmas/IterProto.lean).  The theorems below instantiate that for the community, attribute and NLRI
+iterators: every consumption order the default methods allow observes the `collect` sequence - in
+particular none of them reaches a state `next` alone does not reach, so `accessors_total` /
+`iter_bounded_*` / `err_is_last` cover them.  What a Rust type OVERRIDES (`size_hint`, `nth`, `count` ..)
+is outside the model: "the overrides agree with the defaults, and do not panic" is checked on the real
+code by the harness (harness/src/common.rs `iter_protocol`, reply group `proto`), on every accepted
+message of the stream. -/
+
+/-- the model's observer `collect` computes the `next()` sequence of Rc/Lemmas/IterProto.lean -/
+private theorem ends_of_collect {σ ι : Type} (next : σ → Option (ι × σ)) :
+    ∀ (f : Nat) (s : σ), (collect next f s).2 = true → IterProto.Ends next s (collect next f s).1 := by
+  intro f
+  induction f with
+  | zero =>
+    intro s h
+    simp only [collect] at h ⊢
+    exact IterProto.Ends.nil (by simpa [Option.isNone_iff_eq_none] using h)
+  | succ f ih =>
+    intro s h
+    cases hn : next s with
+    | none => simp only [collect, hn]; exact IterProto.Ends.nil hn
+    | some p =>
+      obtain ⟨i, s'⟩ := p
+      simp only [collect, hn] at h ⊢
+      exact IterProto.Ends.cons hn (ih s' h)
+
+/-- **community_iterator_protocol.** For each of the four community iterators (`code`/`k` = 8/4, 16/8,
+25/20, 32/12; any `k > 0`) of any message: `count()`, `last()`, `collect()`, every `fold`, `nth(j)`,
+`skip(j)`, `step_by(j + 1)` and every one of these after `by_ref().take(j)` observe exactly the items
+`communities()` .. `large_communities()` yield through `next()` (`r.1`, the list of `iter_bounded_attrs`). -/
+theorem community_iterator_protocol (m : Msg) (code k : Nat) (hk : 0 < k)
+    (r : List (Outcome Bytes) × Bool) (h : m.comms code k = some r) :
+    ∃ v, m.typedValue code = some v ∧ IterProto.Protocol (commNext k) v r.1 := by
+  unfold Msg.comms at h
+  split at h
+  · rename_i v hv
+    simp only [Option.some.injEq] at h; subst h
+    exact ⟨v, hv, IterProto.protocol_of_ends (ends_of_collect _ _ _
+      (collect_ended _ List.length (commNext_measure k hk) _ _ (by omega)))⟩
+  · cases h
+
+/-- **attribute_iterator_protocol.** The same for `path_attributes()` of any message. -/
+theorem attribute_iterator_protocol (m : Msg) :
+    IterProto.Protocol (paNext m.ppi.four) m.attrs m.pathAttributes.1 :=
+  IterProto.protocol_of_ends (ends_of_collect _ _ _ (iter_bounded_attrs m).1.1)
+
+open Rc.Nlri in
+/-- **nlri_iterator_protocol.** The same for `NlriIter` / `NlriEnumIter` of every family whose parser
+makes progress (all 26: `Progress`, the hypothesis of `fuel_irrelevant`), over any octets. -/
+theorem nlri_iterator_protocol {α : Type} (c : Codec α) (hp : Progress c) (bs : Bytes) :
+    IterProto.Protocol (nlriNext c) bs (nlriItems c bs).1 :=
+  IterProto.protocol_of_ends (ends_of_collect _ _ _
+    (collect_ended _ List.length (nlriNext_measure hp) _ _ (by omega)))
+
+/-- three standard communities: `nth(3)` is `None`, `skip(1)` yields the last two, `step_by(2)` the
+first and the third (the consumptions that panicked under the seeded constant-time `nth`) -/
+example : IterProto.Protocol (commNext 4) [0, 1, 0, 2, 0, 3, 0, 4, 0, 5, 0, 6]
+    [.ok [0, 1, 0, 2], .ok [0, 3, 0, 4], .ok [0, 5, 0, 6]] :=
+  IterProto.protocol_of_ends ⟨4, by decide⟩
+example : (IterProto.nth (commNext 4) 3 [0, 1, 0, 2, 0, 3, 0, 4, 0, 5, 0, 6]).1 = none := by decide
+example : (IterProto.nth (commNext 4) 4 [0, 1, 0, 2, 0, 3, 0, 4, 0, 5, 0, 6]).1 = none := by decide
 
 end Rc.Thm.C02
